@@ -389,8 +389,10 @@ class Gen:
 
     def stmt(self):
         rng = self.rng
-        form = rng.choices(["assign", "unpack", "aug", "del", "expr", "multi", "pass"], [30, 12, 14, 7, 12, 4, 1])[0]
+        form = rng.choices(["assign", "unpack", "aug", "del", "expr", "multi", "pass", "shadow"], [30, 12, 14, 7, 12, 4, 1, 6])[0]
         d = 0
+        if form == "shadow":
+            return self.shadow()
         if form == "assign":
             src, kind = self.expr(d)
             return f"{self.target(d, kind)} = {src}"
@@ -451,6 +453,66 @@ class Gen:
         if form == "expr":
             return self.expr(d)[0]
         return "pass"
+
+    FALSY = ["None", "False", "0", "''", "0.0", "b''", "[]", "()", "{}"]
+
+    def shadow(self):
+        """a variable of ANY value kind (falsy ones included) or no binding at all, then a comprehension whose loop
+        variable shadows it (possibly never assigned: empty iterable), then a later read of the variable: the
+        enclosing binding must come back exactly (value and bound-ness)"""
+        rng = self.rng
+        v = rng.choice(["x", "y", "z", "u"])
+        lines = []
+        r = rng.random()
+        if r < 0.3:
+            lines.append(f"{v} = {rng.choice(self.FALSY)}")
+            kind = "N"
+        elif r < 0.5:
+            lines.append(f"{v} = {self.lit()}")
+            kind = "N"
+        elif r < 0.65:
+            lines.append(f"{v} = {self.wrap(rng.choice(self.FALSY + [self.lit()]))}")
+            kind = "R"
+        elif r < 0.85:
+            if v in self.vars:
+                lines.append(f"del {v}")
+            kind = None
+        else:
+            kind = self.vars.get(v)
+        self.vars.pop(v, None)
+        # iterables are generated while the variable is hidden (Python would make reading it there an UnboundLocalError)
+        outer = f"for j9 in {self.as_iter(self.expr(2))} " if rng.random() < 0.25 else ""
+        it = rng.choice([self.wrap("[]"), self.wrap("[1, 2]"), "[3]", "()", self.as_iter(self.expr(2))])
+        pair = rng.random() < 0.2
+        if pair:
+            it = rng.choice([self.wrap("[(1, 2), (3, 4)]"), "[(1, 2)]", self.wrap("[]")])
+        self.vars[v] = "N"
+        if outer:
+            self.vars["j9"] = "N"
+        cond = f" if {self.expr(2)[0]}" if rng.random() < 0.3 else ""
+        target = f"{v}, {v}b" if pair else v
+        shape = rng.random()
+        if shape < 0.5:
+            comp = f"[{self.expr(2)[0]} {outer}for {target} in {it}{cond}]"
+        elif shape < 0.75:
+            comp = "{" + f"{self.hashable_elt(2)} {outer}for {target} in {it}{cond}" + "}"
+        else:
+            comp = "{" + f"{self.hashable_elt(2)}: {self.expr(2)[0]} {outer}for {target} in {it}{cond}" + "}"
+        self.vars.pop("j9", None)
+        self.vars.pop(v, None)
+        if kind is not None:
+            self.vars[v] = kind
+        res = self.new_name()
+        while res == v:
+            res = self.new_name()
+        self.vars[res] = "D" if shape >= 0.75 else ("S" if shape >= 0.5 else "C")
+        lines.append(f"{res} = {comp}")
+        after = self.new_name()
+        while after in (v, res):
+            after = self.new_name()
+        lines.append(f"{after} = ({v}, {res})" if rng.random() < 0.5 else f"{after} = {v}")
+        self.vars[after] = "N"
+        return "\n".join(lines)
 
     def program(self, nstmts):
         # a few prebound names so that statements have something to work on
@@ -513,4 +575,27 @@ def table_cases():
                       "seed": 0, "table": f"star {a}"})
         cases.append({"src": f"x = [i for i in t(1, {first[a]})]\ny = {{i: t(2, i) for i in t(3, {first[a]}) if t(4, i)}}", "init": {},
                       "mode": "native", "seed": 0, "table": f"comp {a}"})
+    # comprehension loop variable shadowing a variable of every value kind (truthy and falsy) or no variable at all,
+    # loop body run / never run (empty iterable), every comprehension form, then a later read
+    inits = [("unbound", None)] + [(f"falsy{i}", v) for i, v in enumerate(Gen.FALSY)] + [(k, first[k]) for k in KINDS]
+    comps = [("list", "[t(1, x) for x in t(2, [1, 2])]"), ("empty", "[x for x in t(2, [])]"), ("set", "{x for x in [3]}"),
+             ("dict", "{x: xb for x, xb in t(2, [(1, 2)])}"), ("two", "[(j, x) for j in t(2, [1]) for x in t(3, [4])]"),
+             ("cond", "[x for x in t(2, [0, 1]) if t(3, x)]")]
+    for iname, init in inits:
+        for cname, comp in comps:
+            pre = f"x = {init}\n" if init is not None else ""
+            pre += (f"xb = {init}\n" if init is not None else "") if cname == "dict" else ""
+            post = "y = x" if cname != "dict" else "y = (x, xb)"
+            cases.append({"src": f"{pre}r = {comp}\n{post}", "init": {}, "mode": "native", "seed": 0,
+                          "table": f"shadow {cname} {iname}", "must": True})
+    for c in cases:
+        if c["table"].startswith("fconvspec"):
+            c["must"] = True
     return cases
+
+
+def mandatory_cases(mode):
+    """table programs that are part of every run of either stream"""
+    return [dict(c, mode=mode) for c in table_cases() if c.get("must")]
+
+
